@@ -15,7 +15,7 @@ def run(tier):
     for p in (PROGS_Q if q else PROGS_T):
         for again in ("0", "1"):
             conds.append(Cond("h_constraints.py", "cached_equals_fresh", to, path_timeout=to / 2,
-                              env=dict({"H_PROG": str(p), "H_R2": "0", "H_AGAIN": again}, **({"H_R1MIN": "3"} if q else {}))))
+                              env=dict({"H_PROG": str(p), "H_R2": "0", "H_AGAIN": again}, **({"H_R1MIN": "3"} if q else {"H_R1MIN": "2"}))))
     conds.append(Cond("h_constraints.py", None, 600, twin="reach", env={"H_PROG": "21", "H_R2": "2"}))
     run.run_conditions(conds, conformance_harnesses=["h_constraints.py"])
     run.encoded = ENCODED + ["Constraint.cache (per-constraint memo)", "Evaluator._fitness_cache/_solution_set", "DerivationTree.invalidate_hash/set_children"]
